@@ -122,6 +122,44 @@ fn recv<P: Packetize>(size: usize, stream: &[u8]) -> (usize, Option<P>, bool) {
     }
 }
 
+/// `recv_packet` on a transport that ends before the declared payload is there: it must come back with an error.
+/// Run on its own thread: a receiver that waits for bytes that never come cannot be interrupted in-process.
+fn recv_short<P: Packetize + Send + 'static>(size: usize, stream: &[u8]) -> String {
+    let data = stream.to_vec();
+    let (tx, rx) = std::sync::mpsc::channel::<String>();
+    std::thread::spawn(move || {
+        let r = guarded(std::panic::AssertUnwindSafe(move || {
+            let mut st = Stream::new(std::io::Cursor::new(data));
+            let rt = tokio::runtime::Builder::new_current_thread().enable_all().build().unwrap();
+            rt.block_on(st.recv_packet::<P>(size)).is_ok()
+        }));
+        let _ = tx.send(match r {
+            Some(true) => "ok".to_string(),
+            Some(false) => "err".to_string(),
+            None => "PANIC".to_string(),
+        });
+    });
+    rx.recv_timeout(std::time::Duration::from_secs(5)).unwrap_or_else(|_| "HANG".to_string())
+}
+
+pub fn dec_short(kind: &str, size: usize, stream: &[u8]) -> String {
+    match kind {
+        "session" => recv_short::<Session>(size, stream),
+        "sessionError" => recv_short::<SessionError>(size, stream),
+        "request" => recv_short::<Request>(size, stream),
+        "engine" => recv_short::<Engine>(size, stream),
+        "motion" => recv_short::<Motion>(size, stream),
+        "control" => recv_short::<Control>(size, stream),
+        "target" => recv_short::<Target>(size, stream),
+        "rotator" => recv_short::<Rotator>(size, stream),
+        "status" => recv_short::<ModuleStatus>(size, stream),
+        "instance" => recv_short::<Instance>(size, stream),
+        "gnss" => recv_short::<Gnss>(size, stream),
+        "actor" => recv_short::<Actor>(size, stream),
+        _ => unreachable!(),
+    }
+}
+
 fn dec_out<P: Packetize>(size: usize, stream: &[u8], tok: impl Fn(&P, &[u8]) -> String) -> String {
     let (pos, v, panicked) = recv::<P>(size, stream);
     if panicked {
@@ -506,6 +544,24 @@ pub fn run(out: &mut Out, tier: &str, rng: &mut Rng) {
                 let mut b = bytes.clone();
                 b[pos] = v;
                 dec_case(out, kind, b.len(), &b, "substituted");
+            }
+        }
+    }
+    // a transport that ends before the declared payload has arrived: always an error, never a wait
+    let mut hangs = 0;
+    for kind in KINDS {
+        for size in [1usize, 2, 3, 5, 24, 25, 64, 1024] {
+            for have in [0usize, 1, size - 1] {
+                if have >= size || hangs >= 3 {
+                    continue;
+                }
+                let stream: Vec<u8> = (0..have).map(|_| rng.byte()).collect();
+                let o = dec_short(kind, size, &stream);
+                if o == "HANG" {
+                    hangs += 1;
+                }
+                out.count(&format!("dec short stream -> {}", o));
+                out.case(&format!("decshort {} {} {}", kind, size, hex(&stream)), &o, true);
             }
         }
     }
